@@ -111,6 +111,7 @@ type DecSlot struct {
 	GuardBeforeV bool // guard precedes SetLen and the value read
 	New          bool // a.X = nasType.NewX(ieiN) with the received octet
 	NewArgIeiN   bool
+	NewArgConst  *int64 // constructor argument when it is a constant
 	StoreOctet   bool // a.X.Octet = ieiN
 	SetLen       bool // a.X.SetLen(a.X.GetLen())
 	ErrOK        bool // every read failure and guard failure returns a provably non-nil error
@@ -1215,6 +1216,10 @@ func (cs *CodecSet) parseSlots(c *Codec, fname, recv, buf string, stmts []ast.St
 								}
 								if a, ok := ast.Unparen(call.Args[0]).(*ast.Ident); ok && a.Name == ieiVar {
 									sl.NewArgIeiN = true
+								} else if tv, ok := cs.info.Types[call.Args[0]]; ok && tv.Value != nil {
+									if v, ok := constant.Int64Val(constant.ToInt(tv.Value)); ok {
+										sl.NewArgConst = &v
+									}
 								}
 								continue
 							}
@@ -1470,6 +1475,18 @@ func (cs *CodecSet) parseLoop(c *Codec, fname, recv, buf string, fs *ast.ForStmt
 			}
 		}
 		dc.Slot = slots[0]
+		if k := dc.Slot.NewArgConst; k != nil && !dc.Slot.NewArgIeiN && lp.MapOK && len(dc.Consts) == 1 && *k == dc.Consts[0] {
+			// the case is entered only for octets o with Map[o] == const; if that set is {const}, the constant IS the received octet
+			only := true
+			for o := 0; o < 256; o++ {
+				if int64(lp.Map[o]) == dc.Consts[0] && int64(o) != *k {
+					only = false
+				}
+			}
+			if only {
+				dc.Slot.NewArgIeiN = true
+			}
+		}
 		if len(dc.Consts) == 1 {
 			c.IEIConst[dc.Slot.IE] = dc.Consts[0]
 		}
